@@ -1,7 +1,9 @@
 #!/bin/bash
-# full regression of the checker: all quick checks silent on /repo, every stored mutant / seed fires, every benign edit is silent
+# full regression of the checker: all quick checks silent on /repo, every stored mutant / seed fires, every benign edit is silent.
+# usage: tools/regress.sh [logfile] [jobs]   (the fact export is serialised by a lock, the rule runs are parallel)
 cd "$(dirname "$0")/.."
 out=${1:-/tmp/verif-regress.log}
+jobs=${2:-4}
 : > $out
 # the reference function table must describe /repo's HEAD (regenerate with tools/gen_anchor_table.py after every /repo commit)
 python3 - >> $out <<'PY'
@@ -19,11 +21,15 @@ for f in ("scrut-lib.json", "scrut-bin.json"):
         stale.append(j["crate"])
 print("anchor table: %s" % ("current" if not stale else "STALE for %s - run tools/gen_anchor_table.py" % stale))
 PY
-for i in 01 02 03 04 05 06 07 08 09 10 11 12 13 14 15 16 17 18 19 20; do
-  ./vcheck C$i | tail -1 >> $out
-  python3 -m analysis.selftest C$i | python3 -c "
+one() {
+  i=$1
+  q=$(./vcheck C$i | tail -1)
+  s=$(python3 -m analysis.selftest C$i | python3 -c "
 import json,sys
 d=json.load(sys.stdin)['selftest']
-print('  selftest C$i: mutants %d/%d fired, missed=%s, benign silent %d/%d, false alarms=%s, n/a=%s, %.0fs' % (d['mutants_fired'], d['mutants_applied'], [x.split('/')[-1] for x in d['mutants_missed']], d['benign_silent'], d['benign_applied'], d['benign_false_alarms'], d['not_applicable_patches'], d['wall_s']))" >> $out
-done
+print('  selftest C$i: mutants %d/%d fired, missed=%s, benign silent %d/%d, false alarms=%s, n/a=%s, %.0fs' % (d['mutants_fired'], d['mutants_applied'], [x.split('/')[-1] for x in d['mutants_missed']], d['benign_silent'], d['benign_applied'], d['benign_false_alarms'], d['not_applicable_patches'], d['wall_s']))")
+  printf '%s\n%s\n' "$q" "$s"
+}
+export -f one
+printf '%s\n' 01 02 03 04 05 06 07 08 09 10 11 12 13 14 15 16 17 18 19 20 | xargs -P $jobs -I{} bash -c 'one {}' >> $out
 echo DONE >> $out
